@@ -477,6 +477,7 @@ package composite
 //@   assert [C04:every-step-sees-the-same-observed-state] $req != nil && $req.Observed == $o
 //@   assert [C04:desired-and-context-come-from-the-previous-step] steps > 0 ==> (($prevRsp != nil ==> $req.Desired == $prevRsp.Desired && $req.Context == $prevRsp.Context) && ($prevRsp == nil ==> $req.Desired == nil && $req.Context == nil))
 //@   assert [C03:no-step-after-a-failed-or-fatal-one] observedOK && pipelineOK && !sawFatal
+//@   assert [C04:step-receives-only-its-own-credentials] forall k:Str :: (k in $req.Credentials) ==> exists j :: 0 <= j && j < len(fn.Credentials) && fn.Credentials[j].Name == k
 //@   update pipelineOK = pipelineOK && err == nil
 //@   update steps = steps + 1
 //@ ghost nresults int = 0
@@ -490,10 +491,16 @@ package composite
 //@   invariant [C03:pipeline-healthy-so-far] observedOK && pipelineOK && !sawFatal && !gcDone && !refsPersisted
 //@   invariant [C04:no-result-or-condition-dropped] len(events) == nresults && len(conditions) == nconds
 //@   invariant [C04:state-threaded-through] steps > 0 ==> (($prevRsp != nil ==> d == $prevRsp.Desired && fctx == $prevRsp.Context) && ($prevRsp == nil ==> d == nil && fctx == nil))
+//@ loop range fn.Credentials
+//@   invariant [C04:credentials-loaded-so-far-are-this-steps] req != nil && forall k:Str :: (k in req.Credentials) ==> exists j :: 0 <= j && j < done && fn.Credentials[j].Name == k
+//@   invariant [C03:still-healthy-while-loading-credentials] observedOK && pipelineOK && !sawFatal && !gcDone && !refsPersisted
+//@   invariant [C04:counts-kept-while-loading-credentials] len(events) == nresults && len(conditions) == nconds
+//@   invariant [C04:state-kept-while-loading-credentials] steps > 0 ==> (($prevRsp != nil ==> d == $prevRsp.Desired && fctx == $prevRsp.Context) && ($prevRsp == nil ==> d == nil && fctx == nil))
 //@ loop range rsp.GetConditions()
 //@   invariant [C04:every-condition-surfaced-in-order] len(conditions) == nconds && len(events) == nresults
 //@ loop range rsp.GetResults()
 //@   invariant [C03:no-fatal-result-so-far] observedOK && pipelineOK && !sawFatal && !gcDone && !refsPersisted
+//@   invariant [C03:no-fatal-result-passed-over] forall j :: 0 <= j && j < done ==> (ranged[j] != nil ==> ranged[j].Severity != fnv1.Severity_SEVERITY_FATAL)
 //@   invariant [C04:every-result-surfaced-in-order] len(events) == nresults && len(conditions) == nconds
 //@ optional site *.SetName($cd, $n) as keep-name
 //@   where $cd == &$newcd.Unstructured
@@ -531,16 +538,16 @@ package composite
 // controller or is controlled by the owner; a resource somebody else controls stops the
 // collection with an error before it is touched.
 //@ func (*composite.DeletingComposedResourceGarbageCollector).GarbageCollectComposedResources
-//@ props C03 C02
+//@ props C03 C02 C01
 //@ requires d != nil && owner != nil
 //@ ghost deleted strset = emptystrset
-//@ ensures [C03:every-undesired-observed-resource-is-deleted] err == nil ==> forall k:Str :: k in observed && !(k in desired) ==> k in deleted
+//@ ensures [C03,C01:every-undesired-observed-resource-is-deleted] err == nil ==> forall k:Str :: k in observed && !(k in desired) ==> k in deleted
 //@ loop range observed
 //@   invariant [C03:collected-are-observed-but-not-desired] forall k:Str :: k in del ==> (k in observed && !(k in desired) && del[k] == observed[k])
 //@   invariant [C03:every-undesired-observed-resource-is-collected] forall k:Str :: k in visited && !(k in desired) ==> k in del
 //@ loop range del
 //@   invariant [C03:collected-set-unchanged-while-deleting] forall k:Str :: k in del ==> (k in observed && !(k in desired))
-//@   invariant [C03:collected-so-far-are-deleted] forall k:Str :: k in visited ==> k in deleted
+//@   invariant [C03,C01:collected-so-far-are-deleted] forall k:Str :: k in visited ==> k in deleted
 //@   invariant [C03:all-undesired-are-in-the-collected-set] forall k:Str :: k in observed && !(k in desired) ==> k in del
 //@ site (client.Writer).Update(_, _, $o, $uo...)
 //@   assert [C03:only-undesired-observed-resources-are-relabelled] $o == cd.Resource && name in observed && !(name in desired)
@@ -604,13 +611,20 @@ package composite
 //@   update rounds = rounds + 1
 //@   update stable = false
 //@   update fatal = false
+//@   update prevReq = curReq
+//@   update curReq = ite(result == nil, nilof(*fnv1.Requirements), result.Requirements)
 //@ site (*v1.Result).GetSeverity($rs)
 //@   update fatal = fatal || result == fnv1.Severity_SEVERITY_FATAL
+// the requirements of the latest response (curReq) and of the response before it (prevReq):
+// the run is settled only when those two are equal - not when the latest equals some older one
+//@ ghost prevReq ref = nilof(*fnv1.Requirements)
+//@ ghost curReq ref = nilof(*fnv1.Requirements)
 //@ site reflect.DeepEqual($a, $b)
-//@   update stable = result
+//@   update stable = result && $a == curReq && $b == prevReq
 //@ ensures [C04,C03:returned-response-is-final-and-settled] err == nil ==> result == $last && (stable || fatal)
 //@ loop for i <= MaxRequirementsIterations
 //@   invariant [C04:rounds-counted] rounds == i && 0 <= i
+//@   invariant [C04,C03:remembered-requirements-are-the-latest-responses] requirements == curReq
 //@ loop range rsp.GetResults()
 //@   invariant [C04:no-fatal-result-so-far] !fatal
 //@ loop range newRequirements.GetExtraResources()
@@ -632,3 +646,12 @@ package composite
 //@ site (client.Writer).Delete(_, _, $o, $do...)
 //@   assert [C03:only-resources-without-a-template-are-deleted] $o == cd && name != "" && !(name in templates)
 //@   assert [C02:never-delete-what-another-owner-controls] metav1.GetControllerOf(cd) == nil || metav1.GetControllerOf(cd).UID == cr.GetUID()
+
+// C05 (P&T readiness): with readiness checks configured a composed resource is ready only if
+// every one of them is satisfied - not the last, not any.
+//@ func composite.IsReady
+//@ props C05
+//@ let $paved = result fieldpath.PaveObject
+//@ ensures [C05:ready-only-if-every-check-passes] (err == nil && result && len(rc) > 0) ==> forall j :: 0 <= j && j < len(rc) ==> rc[j].IsReady($paved, o)[0]
+//@ loop range rc
+//@   invariant [C05:every-check-so-far-passed] forall j :: 0 <= j && j < done ==> rc[j].IsReady(paved, o)[0]
